@@ -36,7 +36,10 @@ def check(tier):
     run_kani(rep, ['c13_complex_table'], decode_table)
     run_s(rep, tier)
     bad = c11_glue.run_complex(rep, tier)
-    for n, what in bad[:3]:
+    seen_n = set()
+    bad = [b for b in bad if not (b[0] in seen_n or seen_n.add(b[0]))]       # one native replay per length
+    bad.sort(key=lambda b: (0 if b[0] in (2, 1024) else 1, b[0]))
+    for n, what in bad[:6]:
         # natively: round trip / product / split-merge errors of the real Polynomial<Complex64> transforms at that length
         dev, rel = replay.both(['complex_ops', n])
         rep.replayed += 1
